@@ -11,7 +11,7 @@ func prop(id, title string, quick, thorough []string, decided, notDecided string
 
 func init() {
 	prop("C01", "Token flow conforms to BPMN semantics",
-		[]string{"R1", "R2", "R3", "R3d", "R3e", "R5", "R6", "R7", "R8", "R9", "R10", "R13", "R36", "R38", "R39"}, nil,
+		[]string{"R1", "R2", "R3", "R3d", "R3e", "R5", "R6", "R7", "R8", "R9", "R10", "R13", "R36", "R38", "R39", "R51"}, nil,
 		"Structural necessary conditions of token accounting, decided on every path of the analysed functions: every token goroutine is counted before it starts and uncounted exactly once on every exit (R1); every request taken from a node mailbox is answered, parked, delegated or reported on every path and never answered twice, a releasing join hands each parked token exactly one action and empties its parked list / counter (R2,R3,R3d); every message type posted has a handler (R5) and every action type an interpreter, enum switches are exhaustive (R6); forked flows start only after the FlowTrace that announces them, a terminal trace is the last trace, leave/move/visit are ordered, every token exit is announced (R7-R10); the element->node mapping is frozen before use (R13); process and sub-process build and register the same 18 node kinds with checked constructor errors (R36).",
 		"that conditions evaluate to the right truth value, that the number of requests equals what the token game prescribes for a given graph and data, order consistency for a given graph, final variable values (these quantify over process graphs and inputs).")
 	prop("C02", "Completion is reported iff all start events fired and no token remains",
@@ -19,11 +19,11 @@ func init() {
 		"Decides: the wait group 'no token remains' is read from is paired (R1); CeaseFlowTrace has one send site per monitor, only in the branch that saw the flow wait group drained and after the loop that counted all start events, the completion lock is taken synchronously before the monitor goroutine exists and released on all exits, and WaitUntilComplete observes that lock (R12); the monitor's subscription must precede the start trigger (R11); WaitUntilComplete and its helper contain no unguarded blocking operation, i.e. a waiter whose context expired cannot leave a helper behind that owns the completion lock (R14).",
 		"bounded latency of completion, behaviour with several start events beyond the single send site, 'exactly once after every other flow trace' as a history fact.")
 	prop("C03", "Parallel gateway",
-		[]string{"R2", "R3", "R3d", "R3e", "R4", "R24", "R47"}, nil,
+		[]string{"R2", "R3", "R3d", "R3e", "R4", "R24", "R47", "R51"}, nil,
 		"Decides: a token's request at the gateway is never dropped (R2); on release every parked token receives exactly one action (surplus ones completeAction), the parked list is emptied and the arrival counter re-initialised in the releasing branch so that re-entry starts from scratch (R3,R3d); a release can never strand the gateway on a token that left (reply capacity, R4); join state is confined to the gateway goroutine (R24).",
 		"that the comparison is == N rather than >= N, the partition arithmetic of distributeFlows (value-level facts).")
 	prop("C04", "Exclusive gateway",
-		[]string{"R2", "R5", "R24", "R26", "R38", "R39"}, nil,
+		[]string{"R2", "R5", "R24", "R26", "R38", "R39", "R51"}, nil,
 		"Decides: every request and every probe report is answered, parked, re-queued or reported (R2,R5); probing state is confined to the gateway goroutine (R24); both registered expression engines are usable from the token goroutine without a nil-map write (R26a); the list of candidate flows is an order-preserving filter of the gateway's outgoing flows and is not reordered afterwards (R39); a decision handed to a token is a fresh slice that later decisions cannot overwrite (R38).",
 		"'first true wins' as a value fact, truth values of conditions, position of the default.")
 	prop("C05", "Inclusive gateway",
